@@ -20,6 +20,7 @@ Require Import MTX.Proofs.C23_RtpH264 MTX.Proofs.C23_RtpH264Seq MTX.Proofs.C23_R
                MTX.Proofs.C23_RtpGlue MTX.Proofs.C23_RtpGlue2.
 Require Import MTX.Proofs.C23_RtpH265 MTX.Proofs.C23_RtpH265Rt MTX.Proofs.C23_RtpAudio MTX.Proofs.C23_RtpGlueGen
                MTX.Proofs.C23_RtpInst.
+Require Import MTX.Model.C23_RtpLife MTX.Proofs.C23_RtpLife MTX.Proofs.C23_RtpLifeInst.
 Import ListNotations.
 Local Open Scope Z_scope.
 
@@ -568,3 +569,176 @@ Example C23_example_lpcm :
      | _ => False
      end.
 Proof. vm_compute. repeat split; reflexivity. Qed.
+
+(* ================================================================================================================
+   Third part (builder b2-c23): the per-format RTP state over the WHOLE LIFE of a Stream - a sequence of sub streams.
+
+   Model/C23_RtpLife.v: one streamFormat (rtpEncoder, rtpTimeOffset, ptsOffset; flags alwaysAvailable, forceRemux)
+   shared by every sub stream the Stream goes through (an ordinary stream has one; an always-available stream has
+   the offline sub stream, publishers replacing each other, the offline sub stream again, ...). An event is either
+   ESub (a SubStream.Initialize: subStreamFormat.initialize = ssf_init, initialize2 = ssf_init2) or EUnit (a unit
+   through writeUnitInner = glue_write on the PTS shifted by ptsOffset); life_trace gives, per event, the state
+   before, the result and the state after. The random draws of a (possible) new encoder and offset are event
+   arguments, so every theorem holds whatever the random source returns.
+   ================================================================================================================ *)
+
+(* subStreamFormat.initialize with an encoder already there: encoder (SSRC, sequence number) and offset are left
+   alone - for any publisher kind, any mode, any random draw *)
+Theorem C23_life_sub_keeps_state : forall max avail m use_rtp dec_ok rnd g e,
+  g.(g_enc) = Some e ->
+  ssf_init max avail m use_rtp dec_ok rnd g = if use_rtp && negb dec_ok then None else Some g.
+Proof. exact ssf_init_keeps. Qed.
+Print Assumptions C23_life_sub_keeps_state.
+
+(* ... without encoder: created exactly when the server must generate the packets (non-RTP publisher, always-available
+   stream, forced remux), from the drawn SSRC / sequence number / offset; a format without encoder fails *)
+Theorem C23_life_sub_creates : forall max avail m use_rtp dec_ok ssrc seq0 off g,
+  g.(g_enc) = None -> (use_rtp = true -> dec_ok = true) ->
+  ssf_init max avail m use_rtp dec_ok (ssrc, seq0, off) g =
+    if needs_encoder m use_rtp
+    then (if avail then Some (mkg (Some (enc_init max ssrc seq0)) off) else None)
+    else Some g.
+Proof. exact ssf_init_creates. Qed.
+Print Assumptions C23_life_sub_creates.
+
+(* the first sub stream of a Stream that needs an encoder creates the state ... *)
+Theorem C23_life_first_sub : forall P encode max avail m use_rtp dec_ok ssrc seq0 off first computed,
+  (use_rtp = true -> dec_ok = true) -> needs_encoder m use_rtp = true -> avail = true ->
+  life_step P encode max avail m l_init (ESub P use_rtp dec_ok (ssrc, seq0, off) first computed)
+  = (mkl (mkg (Some (enc_init max ssrc seq0)) off) (ssf_init2 m first computed 0), RSub true).
+Proof. exact life_first_sub. Qed.
+Print Assumptions C23_life_first_sub.
+
+(* ... an RTP publisher on an ordinary stream does not (packets pass through until one is oversized) *)
+Theorem C23_life_first_sub_rtp : forall P encode max avail dec_ok rnd first computed,
+  life_step P encode max avail (mkmode false false) l_init (ESub P true dec_ok rnd first computed)
+  = if dec_ok then (l_init, RSub true) else (l_init, RSub false).
+Proof. exact life_first_sub_rtp. Qed.
+Print Assumptions C23_life_first_sub_rtp.
+
+(* HISTORY (any packetizer): from a state with an encoder, over ANY sequence of sub stream initialisations and units:
+   every state before and after every event has an encoder and the SAME rtpTimeOffset; a sub stream initialisation
+   leaves encoder + sequence number + offset untouched; every re-encoded unit goes out as the packets of the
+   encoder in the state before, stamped with that one offset and the unit's (shifted) PTS *)
+Theorem C23_life_offset_fixed : forall P encode max avail m evs s,
+  has_enc s.(l_g) = true ->
+  Forall (entry_ok P encode m s.(l_g).(g_off)) (life_trace P encode max avail m s evs).
+Proof. exact life_offset_fixed. Qed.
+Print Assumptions C23_life_offset_fixed.
+
+(* the entries of a history are chained: each event starts in the state the previous one ended in *)
+Theorem C23_life_chained : forall P encode max avail m evs s a b,
+  In (a, b) (combine (life_trace P encode max avail m s evs) (tl (life_trace P encode max avail m s evs))) ->
+  snd a = fst (fst (fst b)).
+Proof. exact life_trace_chained. Qed.
+Print Assumptions C23_life_chained.
+
+(* HISTORY (any packetizer honouring enc_post0): in every entry the unit's packets are numbered from the number of
+   the encoder in the state before, with its SSRC, and the encoder of the state after continues behind them; a sub
+   stream initialisation consumes no number. With C23_life_chained: the numbering continues across sub streams *)
+Theorem C23_life_seq_entries : forall P encode,
+  (forall e p pkts e', encode e p = inl (Ok (pkts, e')) -> enc_post0 e pkts e') ->
+  forall max avail m evs s, Forall (entry_seq P) (life_trace P encode max avail m s evs).
+Proof. exact life_seq_entries. Qed.
+Print Assumptions C23_life_seq_entries.
+
+(* HISTORY (a packetizer that never returns an error): ALL packets of the whole history, across every sub stream,
+   form ONE consecutive run (mod 2^16) from the first encoder's number with ONE SSRC; the encoder at the end
+   continues after them and the offset at the end is the offset at the start *)
+Theorem C23_life_seq_consecutive : forall P encode,
+  (forall e p pkts e', encode e p = inl (Ok (pkts, e')) -> enc_post0 e pkts e') ->
+  (forall e p e', encode e p <> inr e') ->
+  forall max avail m evs s e0,
+  s.(l_g).(g_enc) = Some e0 ->
+  let all := trace_pkts P (life_trace P encode max avail m s evs) in
+  seq_chain e0.(e_seq) all /\ Forall (fun p => p.(p_ssrc) = e0.(e_ssrc)) all
+  /\ exists e1, (life_final P encode max avail m s evs).(l_g).(g_enc) = Some e1
+       /\ e1.(e_seq) = adv e0.(e_seq) (length all) /\ e1.(e_max) = e0.(e_max) /\ e1.(e_ssrc) = e0.(e_ssrc)
+       /\ (life_final P encode max avail m s evs).(l_g).(g_off) = s.(l_g).(g_off).
+Proof. exact life_seq_consecutive. Qed.
+Print Assumptions C23_life_seq_consecutive.
+
+(* HISTORY, size: EVERY packet the Stream sends for the format over its whole life - generated by the encoder of the
+   first or of any later sub stream, created by initialize or by an oversized packet, or forwarded untouched - fits
+   the maximum (under the encoder's own precondition lo <= max / pre, as in C23_glue_size_generic) *)
+Theorem C23_life_size : forall P encode,
+  (forall e p pkts e', encode e p = inl (Ok (pkts, e')) -> enc_post0 e pkts e') ->
+  (forall e p e', encode e p <> inr e') ->
+  forall lo (pre : Z -> P -> Prop),
+  (forall e p pkts e', lo <= e.(e_max) -> pre e.(e_max) p ->
+     encode e p = inl (Ok (pkts, e')) -> Forall (fun q => blen q.(p_payload) <= e.(e_max)) pkts) ->
+  forall max avail m evs s,
+  lo <= max -> max <> 0 -> enc_max_ok max s.(l_g) -> Forall (event_ok P pre max) evs ->
+  Forall (fun p => blen p.(p_payload) <= max) (trace_pkts P (life_trace P encode max avail m s evs)).
+Proof. exact life_size. Qed.
+Print Assumptions C23_life_size.
+
+(* ---- H.264 (its encoder never fails): the three history theorems without contract hypotheses ---- *)
+Theorem C23_h264_life_seq_consecutive : forall max avail m evs s e0,
+  s.(l_g).(g_enc) = Some e0 ->
+  let all := trace_pkts (list bytes) (h264_life_trace max avail m s evs) in
+  seq_chain e0.(e_seq) all /\ Forall (fun p => p.(p_ssrc) = e0.(e_ssrc)) all
+  /\ exists e1, (h264_life_final max avail m s evs).(l_g).(g_enc) = Some e1
+       /\ e1.(e_seq) = adv e0.(e_seq) (length all) /\ e1.(e_max) = e0.(e_max) /\ e1.(e_ssrc) = e0.(e_ssrc)
+       /\ (h264_life_final max avail m s evs).(l_g).(g_off) = s.(l_g).(g_off).
+Proof. exact h264_life_seq_consecutive. Qed.
+Print Assumptions C23_h264_life_seq_consecutive.
+
+(* every packet of every unit of the whole history: Timestamp = the ONE offset + uint32(shifted PTS) (mod 2^32) *)
+Theorem C23_h264_life_ts : forall max avail m evs s,
+  has_enc s.(l_g) = true -> Forall (h264_entry_ts m s.(l_g).(g_off)) (h264_life_trace max avail m s evs).
+Proof. exact h264_life_ts. Qed.
+Print Assumptions C23_h264_life_ts.
+
+Theorem C23_h264_life_size : forall max avail m evs s,
+  3 <= max -> enc_max_ok max s.(l_g) ->
+  Forall (fun e => match e with
+                   | ESub _ _ _ (_, seq0, _) _ _ => 0 <= seq0 < 65536
+                   | EUnit _ _ inp _ _ => Forall (fun p => 0 <= p.(p_seq) < 65536) inp
+                   end) evs ->
+  Forall (fun p => blen p.(p_payload) <= max) (trace_pkts (list bytes) (h264_life_trace max avail m s evs)).
+Proof. exact h264_life_size. Qed.
+Print Assumptions C23_h264_life_size.
+
+(* ---- Opus, G.711 / LPCM: one consecutive run over the whole history ---- *)
+Theorem C23_opus_life_seq_consecutive : forall max avail m evs s e0,
+  s.(l_g).(g_enc) = Some e0 ->
+  let all := trace_pkts (list bytes) (life_trace (list bytes) opus_encode max avail m s evs) in
+  seq_chain e0.(e_seq) all /\ Forall (fun p => p.(p_ssrc) = e0.(e_ssrc)) all
+  /\ exists e1, (life_final (list bytes) opus_encode max avail m s evs).(l_g).(g_enc) = Some e1
+       /\ e1.(e_seq) = adv e0.(e_seq) (length all) /\ e1.(e_max) = e0.(e_max) /\ e1.(e_ssrc) = e0.(e_ssrc)
+       /\ (life_final (list bytes) opus_encode max avail m s evs).(l_g).(g_off) = s.(l_g).(g_off).
+Proof. exact opus_life_seq_consecutive. Qed.
+Print Assumptions C23_opus_life_seq_consecutive.
+
+Theorem C23_lpcm_life_seq_consecutive : forall ss max avail m evs s e0,
+  0 < ss -> s.(l_g).(g_enc) = Some e0 ->
+  let all := trace_pkts bytes (life_trace bytes (lpcm_encode ss) max avail m s evs) in
+  seq_chain e0.(e_seq) all /\ Forall (fun p => p.(p_ssrc) = e0.(e_ssrc)) all
+  /\ exists e1, (life_final bytes (lpcm_encode ss) max avail m s evs).(l_g).(g_enc) = Some e1
+       /\ e1.(e_seq) = adv e0.(e_seq) (length all) /\ e1.(e_max) = e0.(e_max) /\ e1.(e_ssrc) = e0.(e_ssrc)
+       /\ (life_final bytes (lpcm_encode ss) max avail m s evs).(l_g).(g_off) = s.(l_g).(g_off).
+Proof. exact lpcm_life_seq_consecutive. Qed.
+Print Assumptions C23_lpcm_life_seq_consecutive.
+
+(* non-vacuity: an always-available H.264 stream, max 100. The offline sub stream creates the encoder (SSRC 7, first
+   number 65535, offset 1000); a unit; a publisher comes (its initialisation would draw SSRC 9 / number 5 / offset 77:
+   ignored) and ptsOffset becomes 500; its unit continues the numbering across the wrap with the same offset and the
+   shifted PTS; an RTP publisher replaces it: its packet is discarded and the unit re-encoded, same run *)
+Example C23_example_life :
+  let m := mkmode true false in
+  let evs := [ ESub (list bytes) false true (7, 65535, 1000) false 0;
+               EUnit (list bytes) 10 [] false (Some [[65; 1; 2]]);
+               ESub (list bytes) false true (9, 5, 77) true 500;
+               EUnit (list bytes) 20 [] false (Some [[65; 3]; [65; 4]]);
+               ESub (list bytes) true true (11, 6, 78) true 900;
+               EUnit (list bytes) 30 [mkpkt 300 12345 true 55 [65; 9]] false (Some [[65; 9]]) ] in
+  map (fun q => snd (fst q)) (h264_life_trace 100 true m l_init evs)
+  = [ RSub true;
+      RPkts [mkpkt 65535 1010 true 7 [65; 1; 2]];
+      RSub true;
+      RPkts [mkpkt 0 1520 true 7 [24; 0; 2; 65; 3; 0; 2; 65; 4]];
+      RSub true;
+      RPkts [mkpkt 1 1930 true 7 [65; 9]] ]
+  /\ h264_life_final 100 true m l_init evs = mkl (mkg (Some (mkenc 100 7 2)) 1000) 900.
+Proof. vm_compute. split; reflexivity. Qed.
